@@ -18,8 +18,14 @@ MAGIC = ["message", "response", "endpoint", "keepalive", "event: message", "data
          "session_id=", "2.0", "Request timeout", "Parse error", "No JSON-RPC response in HTTP reply", "unknown", "Accepted",
          "notifications/progress", "notifications/cancelled", "progressToken", "_meta", "Cancelled by client", "JSON-RPC Error:",
          "application/json", "text/event-stream", "Mcp-Session-Id", "[DONE]"]
-TEXTS = TEXTS + HOSTILE + MAGIC
-KEYS = ["k", "é", "", "a b", "\U0001F600", "data", "id", "jsonrpc", "method", "params", "result", "error", "_meta", "progressToken", "%s", "{}"]
+# text that looks like the syntax being produced or parsed (JSON, SSE fields, NDJSON framing)
+SYNTAX = ["NaN", "[NaN]", ":Infinity,", "-Infinity", "values=[1.0, NaN]", "data:", "data: {\"jsonrpc\":\"2.0\",\"id\":1,\"result\":{}}", "event: message",
+          "event:endpoint", "id: 1", "retry: 0", ": comment", ":", "{}", "[]", "{\"jsonrpc\":\"2.0\",\"id\":1,\"result\":{}}", "\n\ndata: x\n\n", "\r\n\r\n",
+          "]}", "\"}", "\\u0000", "null", "true", "1e309", "[1,", "\ufeff{"]
+TEXTS = TEXTS + HOSTILE + MAGIC + SYNTAX
+KEYS = ["k", "é", "", "a b", "\U0001F600", "data", "id", "jsonrpc", "method", "params", "result", "error", "_meta", "progressToken", "%s", "{}",
+        "data:", "event: message", "NaN", ":", "\n", "[]", "{\"a\":1}"]
+EXC_NAMES = ["TypeError", "ValueError", "KeyError", "IndexError", "AttributeError", "RuntimeError", "RecursionError", "OSError", "Exception", "StrRaises"]
 FLOATS = [0.0, 1.5, -2.5e-07, 1e+300]
 INTS = [0, 1, -1, 7, 2 ** 31, -(2 ** 63), 2 ** 53 + 1, 2 ** 64 - 1]
 LATS = [1, 1, 1, 2, 3, 17, 511, 512, 513, 700, 1500]
@@ -179,6 +185,13 @@ def exchange(rng, names, max_notifs=3, err_cls=None, k=0, plain=False):
     if max_notifs and rng.random() < 0.2:
         # messages after the reply: notifications, the reply once more
         x["after"] = [notif(rng) for _ in range(rng.randint(1, 2))] + ([{"dup": True}] if rng.random() < 0.25 else [])
+    if rng.random() < 0.03:
+        # a message object that cannot be serialised (its serialisation raises): nothing goes out, the call
+        # gives up, and the carrier has to keep carrying the conversation
+        x["call"] = {"h": "raw", "id": {"s": f"unsendable-{k}"}, "method": "x", "params": None, "form": "raising", "exc": rng.choice(EXC_NAMES)}
+        x["D"] = 40
+        x.pop("echo", None)
+        return x
     if rng.random() < 0.06 and not c.get("pause"):
         # a call that gives up (tiny / zero timeout) long before the answer comes; the conversation goes on
         x["D"] = rng.choice([0, 1, 2])
@@ -270,6 +283,48 @@ TIES = ["events", "timers", "io"]
 STYLES = [{"sp": False, "ascii": False}, {"sp": True, "ascii": True}, {"sp": False, "ascii": True}, {"sp": True, "ascii": False}]
 
 
+def options(rng):
+    """transport options away from their defaults (every parameter class), crossed with whatever the
+    conversation is"""
+    hdr = lambda: rng.choice([None, {"X-Trace": "é"[:0] + "t1"}, {"Accept": "text/plain", "Content-Type": "text/plain"}, {"authorization": "Basic x"}, {"User-Agent": "ua/1"}])
+    tok = lambda: rng.choice([None, "tok", "Bearer tok", ""])
+    o = {}
+    if rng.random() < 0.7:
+        o["http"] = {k: v for k, v in {
+            "headers": hdr(), "bearer_token": tok(), "session_id": rng.choice([None, "S0", "", "0"]), "enable_streaming": rng.choice([True, False]),
+            "max_concurrent_requests": rng.choice([10, 1]), "max_retries": rng.choice([3, 0]), "retry_delay": rng.choice([1.0, 0.0]),
+            "user_agent": rng.choice(["chuk-mcp/1.0.0", ""])}.items() if v is not None}
+    if rng.random() < 0.7:
+        o["sse"] = {k: v for k, v in {
+            "headers": hdr(), "bearer_token": tok(), "session_id": rng.choice([None, "S1", ""]), "auto_reconnect": rng.choice([True, False]),
+            "max_reconnect_attempts": rng.choice([5, 0]), "keep_alive_interval": rng.choice([30.0, 0.001])}.items() if v is not None}
+    if rng.random() < 0.5:
+        o["stdio"] = {"args": rng.choice([[], ["-x", ""], ["é"]]), "env": rng.choice([None, {}, {"LOG_LEVEL": "ERROR"}, {"LOGGING_LEVEL": "critical", "X": ""}])}
+    if rng.random() < 0.2:
+        o["env"] = {"MCP_BEARER_TOKEN": rng.choice(["envtok", "Bearer envtok", ""])}
+    return o
+
+
+def dims(rng, case, twins=True):
+    """the dimensions every case is crossed with: DEBUG logging live, transport options, several
+    transport instances alive at once, re-entering a transport object"""
+    if rng.random() < 0.3:
+        case["debug"] = True
+    if rng.random() < 0.5:
+        case["opts"] = options(rng)
+    if twins:
+        r = rng.random()
+        if r < 0.1:
+            case["twin"] = 2
+        elif r < 0.13:
+            case["twin"] = 3
+    if case.get("via") == "transport" and len(case.get("xs") or []) >= 2 and rng.random() < 0.35:
+        case["reenter"] = rng.randint(1, len(case["xs"]) - 1)
+    if any(x["call"].get("form") == "raising" for x in case.get("xs") or []):
+        case["quiet_stderr"] = True
+    return case
+
+
 def style(rng):
     st = dict(rng.choice(STYLES))
     if rng.random() < 0.2:
@@ -288,12 +343,35 @@ def conversation(rng, names, all_carriers=None):
         # id twins side by side: the integer 7 and the string "7" (and the falsy pair) on one connection
         twins = rng.choice([[{"i": 7}, {"s": "7"}], [{"i": 0}, {"s": "0"}, {"s": ""}]])
         for k, x in enumerate(xs):
-            if x["call"]["h"] in ("send_message", "raw"):
+            if x["call"]["h"] in ("send_message", "raw") and x["call"].get("form") != "raising":
                 t = twins[k % len(twins)]
                 if x["call"]["h"] == "raw" or G.idval(t):
                     x["call"]["id"] = copy.deepcopy(t)
-    return {"xs": xs, "style": style(rng), "D": 5120, "tie": rng.choice(TIES), "wire": wire(rng, xs),
+    if len(xs) >= 2 and rng.random() < 0.12:
+        # the same failure 2, 3, 4 times in a row, then a success (counters, back-off, warn-once state)
+        bad = copy.deepcopy(rng.choice(xs))
+        if "error" not in bad["reply"] and "D" not in bad and bad["call"].get("form") != "raising":
+            bad["reply"] = error_reply(rng)
+        good = exchange(rng, names, max_notifs=0 if all_carriers else 3, k=9, plain=True)
+        xs = [copy.deepcopy(bad) for _ in range(rng.choice([2, 3, 4]))] + [good]
+        for k, x in enumerate(xs):
+            if x["call"].get("form") == "raising":
+                x["call"]["id"] = {"s": f"unsendable-{k}"}
+            elif x["call"]["h"] == "raw":
+                x["call"]["id"] = {"i": 20 + k}
+            elif x["call"].get("id") is not None:
+                x["call"]["id"] = {"s": f"streak-{k}"}
+    outstanding = False
+    for x in xs:
+        # the very params object of the previous call is handed over again only when no earlier request can
+        # still be queued in a transport (a call that gave up leaves one behind: conversations are sequential)
+        if outstanding:
+            x["call"].pop("reuse", None)
+        if "D" in x or x["call"].get("form") == "raising":
+            outstanding = True
+    case = {"xs": xs, "style": style(rng), "D": 5120, "tie": rng.choice(TIES), "wire": wire(rng, xs),
             "via": rng.choice(["cm", "cm", "transport"])}   # the *_client context manager, or the Transport class
+    return dims(rng, case)
 
 
 def small_notifs(n, tag="b"):
@@ -345,6 +423,49 @@ def directed(rng, names):
         for cls in range(3):
             out.append({"xs": [{"call": c, "notifs": [notif(rng)] if cls == 1 else [], "reply": error_reply(rng, cls), "lat": 1, "gap": 1}],
                         "style": STYLES[cls % len(STYLES)], "D": 5120, "tie": TIES[cls]})
+    return out
+
+
+def long_sessions(rng, names, budget):
+    """long sessions on ONE connection: more than 100 notifications accumulated over many exchanges (nobody
+    reads stdio's legacy notification stream: its 100-slot buffer fills), many consecutive requests"""
+    out = []
+    for n_x, n_n in ([(40, 3)] if budget == "quick" else [(40, 3), (34, 3), (120, 1), (26, 4), (101, 1)]):
+        xs = []
+        for k in range(n_x):
+            h = rng.choice(names)
+            xs.append({"call": {"h": h}, "notifs": small_notifs(n_n, f"s{k}-"), "reply": {"result": template(h, rng)}, "lat": 1, "gap": 1})
+        out.append(dims(rng, {"xs": xs, "style": style(rng), "D": 5120, "tie": rng.choice(TIES), "wire": {"json": {"all": True}},
+                              "via": rng.choice(["cm", "transport"])}))
+    return out
+
+
+def reply_forms():
+    """every way a carrier can hand over a reply: JSON body as object / one-element array / array of all
+    messages, SSE body, legacy SSE answered on the stream (202 first / event first) or in the POST reply (200),
+    stdio line / batch line"""
+    return [
+        {"json": [{}], "sse": {"ack": [0]}, "stdio": {}},
+        {"json": [{"batch": True}], "sse": {"ack": [9]}, "stdio": {"batch": [True]}},
+        {"json": [{"all": True, "status": 201}], "sse": {"m200": [True]}, "httpsse": [{"evs": [{"name": "response"}], "tail": "noeol"}]},
+    ]
+
+
+def falsy_matrix(rng):
+    """falsy ids and falsy payloads through every carrier and every reply form, with and without a
+    notification in front"""
+    out = []
+    for rid in ({"i": 0}, {"s": ""}, {"s": "0"}, {"i": 7}):
+        for reply in ({"result": {}}, {"result": {"": 0}}, {"error": {"code": 0, "message": ""}}, {"error": {"code": 0, "message": "", "data": {}}}):
+            for w in reply_forms():
+                for ns in ([], [{"method": "x", "params": {}}]):
+                    ww = copy.deepcopy(w)
+                    if ns and "all" not in ww["json"][0]:
+                        ww["json"] = [{"all": True}]
+                    out.append({"xs": [{"call": {"h": "raw", "id": rid, "method": "ping", "params": None, "form": rng.choice(["request", "legacy", "dict"])},
+                                        "notifs": ns, "reply": copy.deepcopy(reply), "lat": 1, "gap": 1},
+                                       {"call": {"h": "send_ping"}, "notifs": [], "reply": {"result": {}}, "lat": 1, "gap": 1}],
+                                "style": rng.choice(STYLES), "D": 5120, "tie": rng.choice(TIES), "wire": ww})
     return out
 
 
@@ -432,9 +553,15 @@ def client_case(rng):
         if o["op"] in ("call_tool", "get_prompt"):
             o["name"] = text(rng) or "n"
             o["arguments"] = rng.choice([None, {}, obj(rng, 2)])
+            if rng.random() < 0.2:   # every JSON type where a name / an arguments object is expected
+                o["name"] = rng.choice([None, True, 7, 1.5, "", [], {}])
+            if rng.random() < 0.15:
+                o["arguments"] = rng.choice([[], "x", 7, False, [1]])
         if o["op"] == "read_resource":
             o["uri"] = "file:///" + rng.choice(["a", "é", "%20x"])
-    n_fail = rng.choice([0, 0, 0, 1, 2])
+            if rng.random() < 0.2:
+                o["uri"] = rng.choice([None, 7, "", False, [], {}])
+    n_fail = rng.choice([0, 0, 0, 1, 2, 3, 4])
     inits = []
     for _ in range(n_fail + 1):
         inits.append(init_answer(rng))
@@ -442,8 +569,14 @@ def client_case(rng):
     if plain:
         for x in inits:
             x["notifs"] = []
-    c = {"ops": ops, "inits": inits, "answers": [op_answer(rng, plain) for _ in ops], "connect": rng.choice([False, False, True, "params"]),
+    if n_fail >= 2 and rng.random() < 0.5:
+        inits = [copy.deepcopy(inits[0]) for _ in range(n_fail)] + [inits[-1]]   # the same failure repeated
+    answers = [op_answer(rng, plain) for _ in ops]
+    if len(answers) >= 3 and rng.random() < 0.2:
+        answers = [copy.deepcopy(answers[0]) for _ in range(len(answers) - 1)] + [{"kind": "ok", "text": "t"}]
+    c = {"ops": ops, "inits": inits, "answers": answers, "connect": rng.choice([False, False, True, "params"]),
          "style": style(rng), "tie": rng.choice(TIES), "wire": {}}
+    dims(rng, c, twins=False)
     if not plain and rng.random() < 0.6:
         c["wire"]["json"] = {"all": True}
     if rng.random() < 0.5:
@@ -558,6 +691,13 @@ def shrink_candidates(case):
                     c = copy.deepcopy(case)
                     del c["wire"][k][kk]
                     yield c
+    for key in ("debug", "opts", "twin", "reenter", "via"):
+        if key in case:
+            c = copy.deepcopy(case)
+            del c[key]
+            if key == "via":
+                c.pop("reenter", None)
+            yield c
     if case.get("tie", "events") != "events":
         c = copy.deepcopy(case)
         c["tie"] = "events"
